@@ -53,4 +53,22 @@ theorem C02_history (cfg : Cfg) (D : Dict) (ops : List Op) (hok : OpsOk cfg { di
   have hg := (C01_encode_exact cfg D ops hok h24).2.2
   exact C02_roundtrip cfg D.lookup m hg hh hty h24 hd
 
+/-! non-vacuity: a message with a vendor AVP and a group, under a dictionary that types them, meets every hypothesis -/
+def exDict : Lookup := fun c v =>
+  if c = 14 ∧ v = some 9 then .unsigned32 else if c = 9 ∧ v = none then .grouped else if c = 16 ∧ v = none then .utf8
+  else .unknown
+def exMsg : Msg :=
+  (Msg.new 272 4 0x80 1 2).addAvp 14 (some 9) 0x40 (.unsigned32 5) |>.addAvp 9 none 0
+    (.grouped [Avp.new 16 none 0 (.utf8 [0x61, 0x62, 0x63])])
+
+example : exMsg.Good ∧ exMsg.HeaderOk ∧ TypedList exDict exMsg.avps ∧ exMsg.length < 16777216 ∧
+    depthList exMsg.avps ≤ 32 := by
+  refine ⟨⟨?_, ?_, ?_⟩, ⟨by decide, by decide⟩, ?_, by decide, by decide⟩
+  · simp [exMsg, Msg.addAvp, Msg.add, Msg.new, Avp.new, WFList, Avp.WF, Value.WF, Value.leafWF, hdrLen, Value.len,
+      lenList, Avp.padded, Avp.len, Avp.padding, pad, utf8Valid]
+  · simp [exMsg, Msg.addAvp, Msg.add, Msg.new, Avp.new, ConsList, Avp.Cons, Value.Cons, hdrLen, Value.len,
+      lenList, Avp.padded, Avp.len, Avp.padding, pad]
+  · decide
+  · simp [exMsg, exDict, Msg.addAvp, Msg.add, Msg.new, Avp.new, TypedList, Avp.Typed, Value.Typed, tyOf]
+
 end Dia
